@@ -424,6 +424,12 @@ class C12:
     def _classify_tail(self, createImporter, hdr, f, tb, ri, ci, add_v, masked, verbatim=None):
         """The damaged cell produced a normal token. Is it exactly the standalone parse of a proper prefix?"""
         text = f['text']
+
+        def nobox(t):
+            # a page's bounding box object is shared with the first *xywh token of that page and grows with later ones,
+            # so inside a document that field is not a function of the cell alone
+            return {k: v for k, v in t.items() if k != 'bounding_box'} if isinstance(t, dict) else t
+
         if verbatim is None and isinstance(tb, dict) and tb.get('encoding') == text and f['family'] == 'tail':
             # the whole cell was consumed as one valid token: the injected text was not malformed after all
             # (no claim is made that lexable-tail texts must be rejected; strict-family texts never get here)
@@ -434,7 +440,7 @@ class C12:
                 tp = token_core(createImporter(hdr).import_token(p))
             except Exception:
                 continue
-            if tp == tb:
+            if nobox(tp) == nobox(tb):
                 add_v('cell-shortened', 'cell-shortened/prefix-accepted', {'error for, or verbatim': text}, tb,
                       row=ri, col=ci, header=hdr, family=f['family'], kind=f['kind'], cell=text, prefix=p, exact_prefix_parse=True)
                 masked.add((ri, ci))
